@@ -776,239 +776,140 @@ pub fn type_choices_from_group_choice<'a>(
   type_choices
 }
 
-/// Is the given identifier associated with a null data type
-pub fn is_ident_null_data_type(cddl: &CDDL, ident: &Identifier) -> bool {
-  if let Token::NULL | Token::NIL = lookup_ident(ident.ident) {
-    return true;
+/// Does `ident`, or a type name that a rule named `ident` offers as a type
+/// choice (followed transitively), satisfy `is_match`? Every name is examined
+/// once, so cyclic rule references (`a = b`, `b = a`) terminate.
+fn ident_or_alias_matches(
+  cddl: &CDDL,
+  ident: &Identifier,
+  is_match: impl Fn(&Identifier) -> bool,
+) -> bool {
+  let mut seen: Vec<&Identifier> = Vec::new();
+  let mut pending = vec![ident];
+
+  while let Some(ident) = pending.pop() {
+    if seen.contains(&ident) {
+      continue;
+    }
+    seen.push(ident);
+
+    if is_match(ident) {
+      return true;
+    }
+
+    for r in cddl.rules.iter() {
+      if let Rule::Type { rule, .. } = r {
+        if rule.name == *ident {
+          for tc in rule.value.type_choices.iter() {
+            if let Type2::Typename { ident, .. } = &tc.type1.type2 {
+              pending.push(ident);
+            }
+          }
+        }
+      }
+    }
   }
 
-  cddl.rules.iter().any(|r| match r {
-    Rule::Type { rule, .. } if &rule.name == ident => rule.value.type_choices.iter().any(|tc| {
-      if let Type2::Typename { ident, .. } = &tc.type1.type2 {
-        is_ident_null_data_type(cddl, ident)
-      } else {
-        false
-      }
-    }),
-    _ => false,
+  false
+}
+
+/// Is the given identifier associated with a null data type
+pub fn is_ident_null_data_type(cddl: &CDDL, ident: &Identifier) -> bool {
+  ident_or_alias_matches(cddl, ident, |ident| {
+    matches!(lookup_ident(ident.ident), Token::NULL | Token::NIL)
   })
 }
 
 /// Is the given identifier associated with a boolean data type
 pub fn is_ident_bool_data_type(cddl: &CDDL, ident: &Identifier) -> bool {
-  if let Token::BOOL = lookup_ident(ident.ident) {
-    return true;
-  }
-
-  cddl.rules.iter().any(|r| match r {
-    Rule::Type { rule, .. } if &rule.name == ident => rule.value.type_choices.iter().any(|tc| {
-      if let Type2::Typename { ident, .. } = &tc.type1.type2 {
-        is_ident_bool_data_type(cddl, ident)
-      } else {
-        false
-      }
-    }),
-    _ => false,
+  ident_or_alias_matches(cddl, ident, |ident| {
+    matches!(lookup_ident(ident.ident), Token::BOOL)
   })
 }
 
 /// Does the given boolean identifier match the boolean value
 pub fn ident_matches_bool_value(cddl: &CDDL, ident: &Identifier, value: bool) -> bool {
-  if let Token::TRUE = lookup_ident(ident.ident) {
-    if value {
-      return true;
-    }
-  }
-
-  if let Token::FALSE = lookup_ident(ident.ident) {
-    if !value {
-      return true;
-    }
-  }
-
-  cddl.rules.iter().any(|r| match r {
-    Rule::Type { rule, .. } if &rule.name == ident => rule.value.type_choices.iter().any(|tc| {
-      if let Type2::Typename { ident, .. } = &tc.type1.type2 {
-        ident_matches_bool_value(cddl, ident, value)
-      } else {
-        false
-      }
-    }),
+  ident_or_alias_matches(cddl, ident, |ident| match lookup_ident(ident.ident) {
+    Token::TRUE => value,
+    Token::FALSE => !value,
     _ => false,
   })
 }
 
 /// Is the given identifier associated with a URI data type
 pub fn is_ident_uri_data_type(cddl: &CDDL, ident: &Identifier) -> bool {
-  if let Token::URI = lookup_ident(ident.ident) {
-    return true;
-  }
-
-  cddl.rules.iter().any(|r| match r {
-    Rule::Type { rule, .. } if &rule.name == ident => rule.value.type_choices.iter().any(|tc| {
-      if let Type2::Typename { ident, .. } = &tc.type1.type2 {
-        is_ident_uri_data_type(cddl, ident)
-      } else {
-        false
-      }
-    }),
-    _ => false,
+  ident_or_alias_matches(cddl, ident, |ident| {
+    matches!(lookup_ident(ident.ident), Token::URI)
   })
 }
 
 /// Is the given identifier associated with a b64url data type
 pub fn is_ident_b64url_data_type(cddl: &CDDL, ident: &Identifier) -> bool {
-  if let Token::B64URL = lookup_ident(ident.ident) {
-    return true;
-  }
-
-  cddl.rules.iter().any(|r| match r {
-    Rule::Type { rule, .. } if &rule.name == ident => rule.value.type_choices.iter().any(|tc| {
-      if let Type2::Typename { ident, .. } = &tc.type1.type2 {
-        is_ident_b64url_data_type(cddl, ident)
-      } else {
-        false
-      }
-    }),
-    _ => false,
+  ident_or_alias_matches(cddl, ident, |ident| {
+    matches!(lookup_ident(ident.ident), Token::B64URL)
   })
 }
 
 /// Is the given identifier associated with a tdate data type
 pub fn is_ident_tdate_data_type(cddl: &CDDL, ident: &Identifier) -> bool {
-  if let Token::TDATE = lookup_ident(ident.ident) {
-    return true;
-  }
-
-  cddl.rules.iter().any(|r| match r {
-    Rule::Type { rule, .. } if &rule.name == ident => rule.value.type_choices.iter().any(|tc| {
-      if let Type2::Typename { ident, .. } = &tc.type1.type2 {
-        is_ident_tdate_data_type(cddl, ident)
-      } else {
-        false
-      }
-    }),
-    _ => false,
+  ident_or_alias_matches(cddl, ident, |ident| {
+    matches!(lookup_ident(ident.ident), Token::TDATE)
   })
 }
 
 /// Is the given identifier associated with a time data type
 pub fn is_ident_time_data_type(cddl: &CDDL, ident: &Identifier) -> bool {
-  if let Token::TIME = lookup_ident(ident.ident) {
-    return true;
-  }
-
-  cddl.rules.iter().any(|r| match r {
-    Rule::Type { rule, .. } if &rule.name == ident => rule.value.type_choices.iter().any(|tc| {
-      if let Type2::Typename { ident, .. } = &tc.type1.type2 {
-        is_ident_time_data_type(cddl, ident)
-      } else {
-        false
-      }
-    }),
-    _ => false,
+  ident_or_alias_matches(cddl, ident, |ident| {
+    matches!(lookup_ident(ident.ident), Token::TIME)
   })
 }
 
 /// Is the given identifier associated with a decfrac data type
 pub fn is_ident_decfrac_data_type(cddl: &CDDL, ident: &Identifier) -> bool {
-  if let Token::DECFRAC = lookup_ident(ident.ident) {
-    return true;
-  }
-
-  cddl.rules.iter().any(|r| match r {
-    Rule::Type { rule, .. } if &rule.name == ident => rule.value.type_choices.iter().any(|tc| {
-      if let Type2::Typename { ident, .. } = &tc.type1.type2 {
-        is_ident_decfrac_data_type(cddl, ident)
-      } else {
-        false
-      }
-    }),
-    _ => false,
+  ident_or_alias_matches(cddl, ident, |ident| {
+    matches!(lookup_ident(ident.ident), Token::DECFRAC)
   })
 }
 
 /// Is the given identifier associated with a bigfloat data type
 pub fn is_ident_bigfloat_data_type(cddl: &CDDL, ident: &Identifier) -> bool {
-  if let Token::BIGFLOAT = lookup_ident(ident.ident) {
-    return true;
-  }
-
-  cddl.rules.iter().any(|r| match r {
-    Rule::Type { rule, .. } if &rule.name == ident => rule.value.type_choices.iter().any(|tc| {
-      if let Type2::Typename { ident, .. } = &tc.type1.type2 {
-        is_ident_bigfloat_data_type(cddl, ident)
-      } else {
-        false
-      }
-    }),
-    _ => false,
+  ident_or_alias_matches(cddl, ident, |ident| {
+    matches!(lookup_ident(ident.ident), Token::BIGFLOAT)
   })
 }
 
 /// Is the given identifier associated with a numeric data type
 pub fn is_ident_numeric_data_type(cddl: &CDDL, ident: &Identifier) -> bool {
-  if let Token::UINT
-  | Token::NINT
-  | Token::INTEGER
-  | Token::INT
-  | Token::NUMBER
-  | Token::FLOAT
-  | Token::FLOAT16
-  | Token::FLOAT32
-  | Token::FLOAT64
-  | Token::FLOAT1632
-  | Token::FLOAT3264
-  | Token::UNSIGNED = lookup_ident(ident.ident)
-  {
-    return true;
-  }
-
-  cddl.rules.iter().any(|r| match r {
-    Rule::Type { rule, .. } if rule.name == *ident => rule.value.type_choices.iter().any(|tc| {
-      if let Type2::Typename { ident, .. } = &tc.type1.type2 {
-        is_ident_numeric_data_type(cddl, ident)
-      } else {
-        false
-      }
-    }),
-    _ => false,
+  ident_or_alias_matches(cddl, ident, |ident| {
+    matches!(
+      lookup_ident(ident.ident),
+      Token::UINT
+        | Token::NINT
+        | Token::INTEGER
+        | Token::INT
+        | Token::NUMBER
+        | Token::FLOAT
+        | Token::FLOAT16
+        | Token::FLOAT32
+        | Token::FLOAT64
+        | Token::FLOAT1632
+        | Token::FLOAT3264
+        | Token::UNSIGNED
+    )
   })
 }
 
 /// Is the given identifier associated with a uint data type
 pub fn is_ident_uint_data_type(cddl: &CDDL, ident: &Identifier) -> bool {
-  if let Token::UINT = lookup_ident(ident.ident) {
-    return true;
-  }
-
-  cddl.rules.iter().any(|r| match r {
-    Rule::Type { rule, .. } if rule.name == *ident => rule.value.type_choices.iter().any(|tc| {
-      if let Type2::Typename { ident, .. } = &tc.type1.type2 {
-        is_ident_uint_data_type(cddl, ident)
-      } else {
-        false
-      }
-    }),
-    _ => false,
+  ident_or_alias_matches(cddl, ident, |ident| {
+    matches!(lookup_ident(ident.ident), Token::UINT)
   })
 }
 
 /// Is the given identifier associated with a nint data type
 pub fn is_ident_nint_data_type(cddl: &CDDL, ident: &Identifier) -> bool {
-  if let Token::NINT = lookup_ident(ident.ident) {
-    return true;
-  }
-
-  cddl.rules.iter().any(|r| match r {
-    Rule::Type { rule, .. } if rule.name == *ident => rule.value.type_choices.iter().any(|tc| {
-      if let Type2::Typename { ident, .. } = &tc.type1.type2 {
-        is_ident_nint_data_type(cddl, ident)
-      } else {
-        false
-      }
-    }),
-    _ => false,
+  ident_or_alias_matches(cddl, ident, |ident| {
+    matches!(lookup_ident(ident.ident), Token::NINT)
   })
 }
 
@@ -1056,21 +957,11 @@ pub fn ident_numeric_kind(cddl: &CDDL, ident: &Identifier) -> Option<NumericKind
   note = "not mutually exclusive with is_ident_float_data_type (`number` matches both); use ident_numeric_kind and handle NumericKind::Both"
 )]
 pub fn is_ident_integer_data_type(cddl: &CDDL, ident: &Identifier) -> bool {
-  if let Token::INT | Token::INTEGER | Token::NINT | Token::UINT | Token::NUMBER | Token::UNSIGNED =
-    lookup_ident(ident.ident)
-  {
-    return true;
-  }
-
-  cddl.rules.iter().any(|r| match r {
-    Rule::Type { rule, .. } if rule.name == *ident => rule.value.type_choices.iter().any(|tc| {
-      if let Type2::Typename { ident, .. } = &tc.type1.type2 {
-        is_ident_integer_data_type(cddl, ident)
-      } else {
-        false
-      }
-    }),
-    _ => false,
+  ident_or_alias_matches(cddl, ident, |ident| {
+    matches!(
+      lookup_ident(ident.ident),
+      Token::INT | Token::INTEGER | Token::NINT | Token::UINT | Token::NUMBER | Token::UNSIGNED
+    )
   })
 }
 
@@ -1079,21 +970,10 @@ pub fn is_ident_integer_data_type(cddl: &CDDL, ident: &Identifier) -> bool {
 /// `bignint = #6.3(bstr)`, `bigint = biguint / bignint`,
 /// `integer = int / bigint` and `unsigned = uint / biguint`.
 pub fn ident_accepts_bignum_tag(cddl: &CDDL, ident: &Identifier, tag: u64) -> bool {
-  match lookup_ident(ident.ident) {
-    Token::BIGUINT | Token::UNSIGNED => return tag == 2,
-    Token::BIGNINT => return tag == 3,
-    Token::BIGINT | Token::INTEGER => return tag == 2 || tag == 3,
-    _ => (),
-  }
-
-  cddl.rules.iter().any(|r| match r {
-    Rule::Type { rule, .. } if rule.name == *ident => rule.value.type_choices.iter().any(|tc| {
-      if let Type2::Typename { ident, .. } = &tc.type1.type2 {
-        ident_accepts_bignum_tag(cddl, ident, tag)
-      } else {
-        false
-      }
-    }),
+  ident_or_alias_matches(cddl, ident, |ident| match lookup_ident(ident.ident) {
+    Token::BIGUINT | Token::UNSIGNED => tag == 2,
+    Token::BIGNINT => tag == 3,
+    Token::BIGINT | Token::INTEGER => tag == 2 || tag == 3,
     _ => false,
   })
 }
@@ -1108,80 +988,38 @@ pub fn is_ident_bignum_data_type(cddl: &CDDL, ident: &Identifier) -> bool {
   note = "not mutually exclusive with is_ident_integer_data_type (`number` matches both); use ident_numeric_kind and handle NumericKind::Both"
 )]
 pub fn is_ident_float_data_type(cddl: &CDDL, ident: &Identifier) -> bool {
-  if let Token::FLOAT
-  | Token::FLOAT16
-  | Token::FLOAT1632
-  | Token::FLOAT32
-  | Token::FLOAT3264
-  | Token::FLOAT64
-  | Token::NUMBER = lookup_ident(ident.ident)
-  {
-    return true;
-  }
-
-  cddl.rules.iter().any(|r| match r {
-    Rule::Type { rule, .. } if rule.name == *ident => rule.value.type_choices.iter().any(|tc| {
-      if let Type2::Typename { ident, .. } = &tc.type1.type2 {
-        is_ident_float_data_type(cddl, ident)
-      } else {
-        false
-      }
-    }),
-    _ => false,
+  ident_or_alias_matches(cddl, ident, |ident| {
+    matches!(
+      lookup_ident(ident.ident),
+      Token::FLOAT
+        | Token::FLOAT16
+        | Token::FLOAT1632
+        | Token::FLOAT32
+        | Token::FLOAT3264
+        | Token::FLOAT64
+        | Token::NUMBER
+    )
   })
 }
 
 /// Is the given identifier associated with a string data type
 pub fn is_ident_string_data_type(cddl: &CDDL, ident: &Identifier) -> bool {
-  if let Token::TEXT | Token::TSTR = lookup_ident(ident.ident) {
-    return true;
-  }
-
-  cddl.rules.iter().any(|r| match r {
-    Rule::Type { rule, .. } if rule.name == *ident => rule.value.type_choices.iter().any(|tc| {
-      if let Type2::Typename { ident, .. } = &tc.type1.type2 {
-        is_ident_string_data_type(cddl, ident)
-      } else {
-        false
-      }
-    }),
-    _ => false,
+  ident_or_alias_matches(cddl, ident, |ident| {
+    matches!(lookup_ident(ident.ident), Token::TEXT | Token::TSTR)
   })
 }
 
 /// Is the given identifier associated with the any type
 pub fn is_ident_any_type(cddl: &CDDL, ident: &Identifier) -> bool {
-  if let Token::ANY = lookup_ident(ident.ident) {
-    return true;
-  }
-
-  cddl.rules.iter().any(|r| match r {
-    Rule::Type { rule, .. } if rule.name == *ident => rule.value.type_choices.iter().any(|tc| {
-      if let Type2::Typename { ident, .. } = &tc.type1.type2 {
-        is_ident_any_type(cddl, ident)
-      } else {
-        false
-      }
-    }),
-    _ => false,
+  ident_or_alias_matches(cddl, ident, |ident| {
+    matches!(lookup_ident(ident.ident), Token::ANY)
   })
 }
 
 /// Is the given identifier associated with a byte string data type
 pub fn is_ident_byte_string_data_type(cddl: &CDDL, ident: &Identifier) -> bool {
-  if let Token::BSTR | Token::BYTES = lookup_ident(ident.ident) {
-    return true;
-  }
-
-  cddl.rules.iter().any(|r| match r {
-    Rule::Type { rule, .. } if rule.name == *ident => rule.value.type_choices.iter().any(|tc| {
-      if let Type2::Typename { ident, .. } = &tc.type1.type2 {
-        is_ident_byte_string_data_type(cddl, ident)
-      } else {
-        false
-      }
-    }),
-    _ => false,
+  ident_or_alias_matches(cddl, ident, |ident| {
+    matches!(lookup_ident(ident.ident), Token::BSTR | Token::BYTES)
   })
 }
 
